@@ -27,6 +27,10 @@ type Prop struct {
 	// HangSecs > 0: the property forbids non-termination (C13). A worker that spends more than 3*HangSecs on one
 	// job is killed, the run it had logged is re-executed alone with a HangSecs budget, twice; reproduced => "hang".
 	HangSecs int
+	// WarmKnob: programs of this property understand Cfg["warm"] = 1: "use every process-wide lazily initialised
+	// singleton once, sequentially, before the program starts". The driver retries a candidate that does not reproduce in
+	// a fresh (cold) process with the knob set.
+	WarmKnob bool
 	// GlobalRand: run every program in a subtest with testing/cryptotest.SetGlobalRandom(t, Cfg["grand"]+1).
 	GlobalRand bool
 	// Init, if set, runs once per worker process before any run (model self-tests, fixtures).
